@@ -383,8 +383,8 @@ class ExplicitSymplecticIntegrator(TableauIntegrator):
         if self.initial_rhs is None:
             self.initial_rhs = rhs(initial_time, initial_state, **constants)
 
-        if self.final_rhs is None:
-            self.final_rhs = rhs(initial_time + self.dTime, initial_state + self.dState, **constants)
+        # the slope at the end of *this* step (it is the end slope of the step's dense-output piece)
+        self.final_rhs = rhs(initial_time + self.dTime, initial_state + self.dState, **constants)
 
         return timestep, (self.dTime, self.dState)
 
